@@ -389,7 +389,8 @@ Section Loc.
       destruct (is_num ta).
       { apply loc_bind; [now apply loc_push_type|intros fl]. apply loc_bind; [now apply loc_unify|intros; apply loc_ret]. }
       destruct ta; try (now apply locQ_fail). destruct tb; try (now apply locQ_fail).
-      - apply loc_bind; [apply loc_mapM_in; intros; now apply loc_push_type|intros tys].
+      - apply loc_bind; [now apply loc_check_not_inside|intros _].
+        apply loc_bind; [apply loc_mapM_in; intros; now apply loc_push_type|intros tys].
         apply loc_bind; [now apply loc_push_type|intros tup]. apply loc_bind; [now apply loc_unify|intros _].
         now apply (gl_divres R P).
       - destruct (Nat.eqb (length ts) (length ts0)); [|now apply locQ_fail].
